@@ -399,8 +399,146 @@ def arraylen_worker(args):
     return hutil.export(chk)
 
 
+LAZY_REPLAY = r'''
+# Replay for C12 (struct checks through the real module machinery): a struct declared without "..." whose layout
+# differs from the C source must be refused when first used -- for plain and for packed=True cdefs; with "..." the
+# compiler's layout is taken.
+import sys, os, tempfile, shutil, importlib
+import cffi
+tmp = tempfile.mkdtemp(prefix='verif-c12-')
+bad = []
+try:
+    n = 0
+    for packed in (False, True):
+        for dots in (False, True):
+            n += 1
+            ffi = cffi.FFI()
+            ffi.cdef('struct s { char a; int b; %s};' % ('...; ' if dots else ''), packed=packed)
+            csrc = 'struct s { char a; int b; };' if packed else 'struct s { char a; long long pad; int b; };'
+            name = '_verif_c12_lazy%d' % n
+            ffi.set_source(name, csrc)
+            ffi.compile(tmpdir=tmp)
+            sys.path.insert(0, tmp)
+            m = importlib.import_module(name)
+            try:
+                p = m.ffi.new('struct s *')
+                size = m.ffi.sizeof('struct s')
+                if not dots:
+                    bad.append('packed=%r: layout mismatch not reported (sizeof %d)' % (packed, size))
+                elif size != (8 if packed else 24):
+                    bad.append('packed=%r with "...": sizeof %d is not the compiler\'s' % (packed, size))
+            except m.ffi.error:
+                if dots:
+                    bad.append('packed=%r with "...": refused although the layout is to be taken from the compiler' % packed)
+finally:
+    shutil.rmtree(tmp, ignore_errors=True)
+for b in bad: print('VIOLATED:', b)
+sys.exit(1 if bad else 0)
+'''
+
+
+def lazy_worker(args):
+    """do_realize_lazy_struct: the flags of the module's struct entry decide how the compiler's numbers are treated"""
+    prop, tier, kind = args
+    chk = hutil.sub_check(prop, tier)
+    mod = irgen.backend()
+    L = pystubs.CffiLayout(mod)
+    F = L.flags
+    sys.path.insert(0, os.path.join(common.REPO, 'src'))
+    from cffi import cffi_opcode
+    label = 'do_realize_lazy_struct'
+
+    def replay(case):
+        path = chk.write_replay('lazy', LAZY_REPLAY)
+        rc, out = common.run_replay(path, timeout=600)
+        return common.replay_verdict(rc, out), path
+    bl = mod.struct_layout(('named', 'struct.builder_c_t'))
+    ctxl = mod.struct_layout(('named', 'struct._cffi_type_context_s'))
+    sul = mod.struct_layout(('named', 'struct._cffi_struct_union_s'))
+    fl = mod.struct_layout(('named', 'struct._cffi_field_s'))
+    ex = llsym.Executor(mod, pystubs.stubs(), loop_bound=16)
+
+    def h(ex):
+        py = pystubs.PyEnv(ex)
+        install_ffierror(ex)
+        mem = ex.mem
+        flags = z3.BitVec('struct_flags', 32)
+        ex.assume((flags & ~(cffi_opcode.F_CHECK_FIELDS | cffi_opcode.F_PACKED)) == 0)
+        csize, calign = z3.BitVec('compiler_sizeof', 64), z3.BitVec('compiler_alignof', 32)
+        foff, fsize = z3.BitVec('compiler_field_offset', 64), z3.BitVec('compiler_field_size', 64)
+        realsize = z3.BitVec('cdef_field_type_size', 64)
+        ex.assume(z3.And(realsize >= 1, realsize <= 16, fsize >= 0, fsize <= 64, foff >= 0, foff <= 64))
+        inputs = {'struct_flags': flags, 'compiler_sizeof': csize, 'compiler_alignof': calign, 'compiler_field_offset': foff,
+                  'compiler_field_size': fsize, 'cdef_field_type_size': realsize}
+        name_s = mem.alloc(2, 'name "s"', 'heap', fill=0)
+        mem.store(name_s.base, ord('s'), 1)
+        name_f = mem.alloc(2, 'name "f"', 'heap', fill=0)
+        mem.store(name_f.base, ord('f'), 1)
+        su = mem.alloc(sul[1], 'struct_unions[1]', 'heap', fill=0)
+        mem.store(su.base + sul[0][0], name_s.base, 8)
+        mem.store(su.base + sul[0][2], flags, 4)
+        mem.store(su.base + sul[0][3], csize, 8)
+        mem.store(su.base + sul[0][4], calign, 4)
+        mem.store(su.base + sul[0][5], 0, 4)
+        mem.store(su.base + sul[0][6], 1, 4)
+        fld = mem.alloc(fl[1], 'fields[1]', 'heap', fill=0)
+        mem.store(fld.base + fl[0][0], name_f.base, 8)
+        mem.store(fld.base + fl[0][1], foff, 8)
+        mem.store(fld.base + fl[0][2], fsize, 8)
+        mem.store(fld.base + fl[0][3], cffi_opcode.OP_NOOP, 8)
+        builder = mem.alloc(bl[1], 'builder', 'heap', fill=0)
+        mem.store(builder.base + bl[0][0] + ctxl[0][3], su.base, 8)
+        mem.store(builder.base + bl[0][0] + ctxl[0][2], fld.base, 8)
+        mem.store(builder.base + bl[0][0] + ctxl[0][7], 1, 4)
+        ct = pystubs.new_ctype(ex, L, mask(64), F['CT_STRUCT'], length=mask(64), extra=builder.base, name=b'struct s')
+        mem.store(ct + L.ct['ct_lazy_field_list'], 1, 1)
+        ftype = pystubs.new_ctype(ex, L, realsize, F['CT_PRIMITIVE_SIGNED'], length=realsize)
+        calls = []
+
+        def complete(e, ct_, fields, tsize, talign, sflags, pack):
+            calls.append((simp(fields), tsize, talign, sflags, pack))
+            e.mem.store(simp(ct_) + L.ct['ct_stuff'], py.new_opaque('dict'), 8)
+            return e.gaddr('_Py_NoneStruct')
+        ex.stubs.update({'realize_c_type': lambda e, b, ops, idx: ftype, 'b_complete_struct_or_union_lock_held': complete,
+                         'Py_BuildValue': lambda e, fmt, *a: py.new_opaque('field-tuple', args=[simp(x) for x in a]),
+                         '_Py_BuildValue_SizeT': lambda e, fmt, *a: py.new_opaque('field-tuple', args=[simp(x) for x in a])})
+        r = simp(ex.call('do_realize_lazy_struct_lock_held', [ct]))
+        r = ex.concretize(r, 32, 4, 'result') if not is_c(r) else r
+        ok = llsym.signed(r, 32) == 1
+        hutil.witness(chk, ex, label + (':completed' if ok else ':rejected'))
+        D = lambda nm, c: hutil.discharge(chk, ex, label + ':' + nm, c, inputs, replay=replay)
+        if not ok:
+            D('rejected=>field-size-differs', fsize != realsize)
+            D('rejected-with-FFIError', py.exc == 'FFIError')
+            D('rejected=>layout-not-completed', not calls)
+            return
+        D('completed=>field-size-agrees', fsize == realsize)
+        okc = len(calls) == 1
+        D('completed-once', okc)
+        if not okc:
+            return
+        fields, tsize, talign, sflags, pack = calls[0]
+        sf = bv(sflags, 32)
+        D('offsets-checked-iff-declared-without-dotdotdot', ((sf & F['SF_STD_FIELD_POS']) != 0) == ((flags & cffi_opcode.F_CHECK_FIELDS) != 0))
+        D('packed-iff-declared-packed', ((sf & F['SF_PACKED']) != 0) == ((flags & cffi_opcode.F_PACKED) != 0))
+        D('no-other-layout-flag', (sf & ~(F['SF_STD_FIELD_POS'] | F['SF_PACKED'])) == 0)
+        D('compiler-sizeof-and-alignof-handed-over', z3.And(bv(tsize, 64) == csize, bv(talign, 32) == calign))
+        items = py.info(fields).get('items', [])
+        a = py.info(simp(ex.mem.load(py.info(fields)['arr'].base, 8))).get('args') if 'arr' in py.info(fields) else None
+        okf = a is not None and len(a) == 4
+        D('one-field-tuple', okf)
+        if okf:
+            D('field-tuple==(name, type, no-bit-width, compiler-offset)',
+              z3.And(z3.BoolVal(a[0] == name_f.base and a[1] == ftype), bv(a[2], 32) == mask(32), bv(a[3], 64) == foff))
+
+    res = ex.explore(h, max_paths=500)
+    hutil.finish_explore(chk, ex, res, label)
+    chk.functions = irgen.func_info(mod, sorted(ex.called))
+    return hutil.export(chk)
+
+
 def dispatch(args):
-    return {'arraylen': arraylen_worker, 'const': const_worker, 'struct': struct_worker, 'detect': detect_worker}[args[2]](args)
+    return {'lazy': lazy_worker, 'arraylen': arraylen_worker, 'const': const_worker, 'struct': struct_worker, 'detect': detect_worker}[args[2]](args)
 
 
 def run(chk):
@@ -418,11 +556,12 @@ def run(chk):
         cases.append(P + ('struct', N, True))
         cases.append(P + ('struct', N, False))
     cases.append(P + ('detect',))
+    cases.append(P + ('lazy',))
     chk.bounds = {'integer constants': '%d integer types x cdef values %r x every compiler value; unchecked constants of every type' % (len(CTYPES), CDEF_VALUES),
                   'constants as array lengths': 'parse_c_type("int[K]") for 6 of the types x cdef values / unchecked x every compiler value',
                   'struct checks': '0..%d primitive fields of symbolic size, every compiler-reported offset (<= 4096), sizeof, alignof' % (2 if quick else 5)}
     chk.outside = ['functions and global variables of the module (call plumbing: C13), import machinery',
-                   'the wrong-field-size check of do_realize_lazy_struct beyond detect_custom_layout itself',
+                   'structs with several fields in do_realize_lazy_struct (one loop body per field)',
                    'enum constants (same _cffi_const_ generator; the enum family is compiled but only constants are executed)']
     chk.assume('the module is generated at run time by the working tree\'s Recompiler; the C compiler\'s values are symbolic memory')
     irgen.backend()
